@@ -27,12 +27,12 @@ theorem flushLoop_empty {fuel : Nat} {s : St} (hl : s.len = 0) :
   flushLoop_stop (sendStep_empty hl)
 
 theorem jstep_refuse {j : J} {n : Nat} {res : Res} (hd : j.dead = false) (hn : ¬ j.q.length < n)
-    (hres : res = .wouldBlock ∨ res = .intr) : jstep j (.send n res []) = refused j := by
-  rcases hres with rfl | rfl <;> simp [jstep, hd, hn]
+    (hres : KeepRes res) : jstep j (.send n res []) = refused j := by
+  rcases hres with rfl | rfl | ⟨e, rfl, hk⟩ <;> simp [jstep, hd, hn, *]
 
 theorem jstep_fail {j : J} {n : Nat} {res : Res} (hd : j.dead = false) (hn : ¬ j.q.length < n)
-    (hres : res = .pipe ∨ ∃ e, res = .err e) : jstep j (.send n res []) = { j with dead := true } := by
-  rcases hres with rfl | ⟨e, rfl⟩ <;> simp [jstep, hd, hn]
+    (hres : DeadRes res) : jstep j (.send n res []) = { j with dead := true } := by
+  rcases hres with rfl | ⟨e, rfl, hk⟩ <;> simp [jstep, hd, hn, *]
 
 theorem rel_facts {s : St} {rest : Option (List Byte)} {j : J} (h : Inv s) (hg : s.gone = false) (hr : Rel s rest j)
     (hl : s.len ≠ 0) : j.dead = false ∧ ¬ j.q.length < chunkLen s := by
@@ -71,11 +71,11 @@ theorem flushLoop_inert : ∀ (fuel : Nat) (s : St) (rest : Option (List Byte)) 
         dsimp only at hj1
         have hinv' : Inv s' := by rw [← hs']; exact consume_inv h hml _ _
         have hg' : s'.gone = false := by rw [← hs']; exact hg
-        have hlen' : s'.len < s.len := by rw [← hs']; show s.len - _ < s.len; omega
+        have hlen' : s'.len < s.len := by rw [← hs', consume_eq]; show s.len - _ < s.len; omega
         have hsp : StepPost s s' := by
           refine ⟨hinv', by omega, by rw [← hs']; rfl, by rw [← hs']; rfl, ?_⟩
           rw [← hs', consume_contents hml, bytesAt_eq_take h (by omega) hml]
-          simp only [consume, List.reverse_append, List.reverse_reverse, List.append_assoc, List.take_append_drop]
+          simp only [consume_eq, List.reverse_append, List.reverse_reverse, List.append_assoc, List.take_append_drop]
         have hr' : Rel s' rest (jstep j ev) := by
           rw [hj1]
           by_cases h0 : s'.len = 0
@@ -132,11 +132,11 @@ theorem flushLoop_active (c : Byte) (cs : List Byte) : ∀ (fuel : Nat) (s : St)
       dsimp only at hj1
       have hinv' : Inv s' := by rw [← hs']; exact consume_inv h hml _ _
       have hg' : s'.gone = false := by rw [← hs']; exact hg
-      have hlen' : s'.len < s.len := by rw [← hs']; show s.len - _ < s.len; omega
+      have hlen' : s'.len < s.len := by rw [← hs', consume_eq]; show s.len - _ < s.len; omega
       have hsp : StepPost s s' := by
         refine ⟨hinv', by omega, by rw [← hs']; rfl, by rw [← hs']; rfl, ?_⟩
         rw [← hs', consume_contents hml, bytesAt_eq_take h (by omega) hml]
-        simp only [consume, List.reverse_append, List.reverse_reverse, List.append_assoc, List.take_append_drop]
+        simp only [consume_eq, List.reverse_append, List.reverse_reverse, List.append_assoc, List.take_append_drop]
       by_cases h0 : s'.len = 0
       · -- drained: the oracle refills at this very event, the loop stops without another event
         have hfuel : ∃ f, fuel = f + 1 := ⟨fuel - 1, by omega⟩
